@@ -61,6 +61,7 @@ def plan(tier, seed):
     sysd = sd if tier == "thorough" else [datetime.date(2016, 1, 1), datetime.date(2023, 1, 1)]
     for d in sysd:
         items.append(dict(kind="system", date=str(d), k=0, seed=seed))
+    items.append(dict(kind="sequence", seed=seed))
     tax_dates = sorted({max(d, lo) for d, _ in ref.entries("eink_st", "eink_st_tarif")} | {d for d, _ in ref.entries("soli_st", "soli_st") if d >= lo})
     if tier == "quick":
         soli_dates = {d for d, _ in ref.entries("soli_st", "soli_st") if d >= lo}
@@ -76,7 +77,42 @@ def worker_init():
 
 
 def run_item(item):
-    return {"schedule": _schedule, "system": _system, "shape": _shape}[item["kind"]](item)
+    return {"schedule": _schedule, "system": _system, "shape": _shape, "sequence": _sequence}[item["kind"]](item)
+
+
+def _sequence(item):
+    """Every version of every schedule, set up one after the other in ONE process (ascending, then descending
+    dates): the arrays of each environment must match the file, whatever was parsed before."""
+    from _gettsim.policy_environment import set_up_policy_environment
+    from vf import env
+    from vf.refmodels import ABSENT, ParamsRef, Schedule
+
+    ref = ParamsRef(env.raw_yaml)
+    res = dict(kind="sequence", violations=[], points=0, setups=0, compared=0, date="sequence")
+    lo = datetime.date(1984, 1, 1)
+    dates = set()
+    for g, p in schedules():
+        dates |= {max(d, lo) for d, _ in ref.entries(g, p)}
+    dates = sorted(dates)
+    for direction, ds in (("ascending", dates), ("descending", dates[::-1])):
+        for d in ds:
+            params, _ = set_up_policy_environment(d)
+            res["setups"] += 1
+            for g, p in schedules():
+                raw = ref.value(g, p, d)
+                prod = params[g].get(p)
+                if raw is ABSENT or not isinstance(prod, dict) or "thresholds" not in prod:
+                    continue
+                s = Schedule(raw, f"{g}/{p}")
+                res["compared"] += 1
+                want = np.array([float(x) for x in s.intercepts])
+                got = np.asarray(prod["intercepts_at_lower_thresholds"], dtype=float)
+                if got.shape != want.shape or not np.all(np.abs(got - want) <= 1e-9 * np.maximum(1.0, np.abs(want))):
+                    res["violations"].append(dict(key=f"{g}/{p}:depends_on_earlier_set_ups",
+                                                  what=f"{g}/{p} at {d} (set-ups in {direction} date order in one process): intercepts {got.tolist()} "
+                                                       f"differ from the schedule in the file {want.tolist()}", date=str(d)))
+                    return res
+    return res
 
 
 def exact_from_arrays(x, thresholds, rates, intercepts, mult=None):
@@ -374,6 +410,7 @@ def _shape(item):
 def summarize(results, tier, seed):
     ok = [r for r in results if "_harness_error" not in r]
     viol = [dict(key=v["key"], what=v["what"], witness=v, item=r["_item"]) for r in ok for v in r["violations"]]
+    seq = [r for r in ok if r["kind"] == "sequence"]
     sch = [r for r in ok if r["kind"] == "schedule"]
     sysr = [r for r in ok if r["kind"] == "system"]
     shp = [r for r in ok if r["kind"] == "shape"]
@@ -399,6 +436,7 @@ def summarize(results, tier, seed):
         status={s: sum(1 for r in sch if r["status"] == s) for s in {r["status"] for r in sch}},
         contract_evaluations_in_system_runs=sum(r["contract_evaluations"] for r in sysr), contract_calls_by_schedule=bys,
         shape_dates=[r["date"] for r in shp], schedules_with_jumps=disc,
+        set_ups_in_one_process_sequence=sum(r["setups"] for r in seq), schedule_versions_compared_in_sequence=sum(r["compared"] for r in seq),
         samples=[r["sample"] for r in sch if r.get("sample")][:2] + [r["sample"] for r in sysr[:1]] + [r["sample"] for r in shp[:1]],
     )
     return dict(coverage=cov, violations=viol, inconclusive=inconclusive,
